@@ -1,7 +1,8 @@
 '''C11 - URL parsing and joining are total: any text gives a result or a ValueError.
 
 Monitor: exception-type / termination oracle around the real entry points
-(URLInfo.parse + every documented accessor, parse_url_or_log, urljoin, urljoin_safe).
+(URLInfo.parse + every documented accessor, parse_url_or_log, urljoin, urljoin_safe, and the HTML
+scraper joining the same strings as links onto document / <base> / per-element bases).
 '''
 import codecs
 import json
@@ -192,6 +193,58 @@ def exercise(mods, text, encoding, base, part, replay):
         signal.alarm(0)
 
 
+_html = {}
+
+
+def html_attr(text):
+    return text.replace('&', '&amp;').replace('"', '&quot;').replace('<', '&lt;').replace('>', '&gt;')
+
+
+def exercise_scraper(text, base, variant, part, replay):
+    '''The same strings as scraped links: the real HTML scraper joins every link of a document onto the document
+    URL, a <base href> or a per-element base (codebase).  Whatever the strings, scraping returns.'''
+    from wpull.protocol.http.request import Request, Response
+    from wpull.body import Body
+    import io
+    if 'scraper' not in _html:
+        from checks import c09_hostile
+        from wpull.scraper.html import HTMLScraper
+        demux = c09_hostile.get_scraper()
+        _html['scraper'] = [sc for sc in demux._document_scrapers if isinstance(sc, HTMLScraper)][0]
+    scraper = _html['scraper']
+    links = [text, '//cdn.test/x.class', 'rel/x', '/abs', 'http://h.test/x', '?q', '#f', '']
+    a, b, c = links[variant % len(links)], links[(variant // 8) % len(links)], links[(variant // 64) % len(links)]
+    doc = ('<html><head>{base}</head><body><applet code="{a}" codebase="{t}" archive="{b},{c}"></applet>'
+           '<object data="{a}" codebase="{t}" classid="{b}"></object><embed src="{a}" codebase="{t}">'
+           '<applet code="{t}" codebase="{b}"></applet><a href="{t}">x</a><img src="{t}" srcset="{t} 1x, {a} 2x">'
+           '<iframe src="{t}"></iframe><form action="{t}"></form><link rel="stylesheet" href="{t}">'
+           '<meta http-equiv="refresh" content="0; url={t}"><body background="{t}"></body></html>').format(
+        base='<base href="{}">'.format(html_attr(base if variant & 1 else text)) if variant & 6 else '',
+        t=html_attr(text), a=html_attr(a), b=html_attr(b), c=html_attr(c))
+    try:
+        body = doc.encode('utf-8')
+    except UnicodeEncodeError:
+        body = doc.encode('utf-8', 'replace')
+    request = Request('http://h.test/dir/page.html')
+    response = Response(200, 'OK')
+    response.request = request
+    response.fields['Content-Type'] = 'text/html; charset=utf-8'
+    response.body = Body(io.BytesIO(body))
+    signal.alarm(20)
+    try:
+        result = scraper.scrape(request, response)
+        part.count('documents_scraped')
+        part.count('scraped_links_joined', len(result.link_contexts) if result else 0)
+    except _Alarm:
+        part.count('alarm_fired')
+        part.inconclusive.append({'hang_suspect': replay})
+    except BaseException as e:
+        part.violation('html-scraper-join/{}/{}'.format(type(e).__name__, innermost_wpull(e.__traceback__)),
+                       {'text': text, 'base': base, 'variant': variant, 'error': repr(e)[:300]}, replay)
+    finally:
+        signal.alarm(0)
+
+
 class _FormatHandler(logging.Handler):
     def __init__(self, part):
         super().__init__()
@@ -223,7 +276,10 @@ def worker(job):
     mods = (URLInfo, wurl, sutil)
     if 'replay' in job:
         rp = job['replay']
-        exercise(mods, rp['text'], rp['encoding'], rp['base'], part, rp)
+        if 'scrape_variant' in rp:
+            exercise_scraper(rp['text'], rp['base'], rp['scrape_variant'], part, rp)
+        else:
+            exercise(mods, rp['text'], rp['encoding'], rp['base'], part, rp)
         part.evaluations += 1
         return part.dump()
     rng = random.Random(job['seed'])
@@ -238,6 +294,9 @@ def worker(job):
         replay = {'text': text, 'encoding': encoding, 'base': base}
         part.evaluations += 1
         exercise(mods, text, encoding, base, part, replay)
+        if i % 12 == 0:
+            variant = rng.randrange(1 << 12)
+            exercise_scraper(text, base, variant, part, dict(replay, scrape_variant=variant))
         if i % 1999 == 0:
             part.sample(replay)
     out = part.dump()
@@ -286,7 +345,7 @@ def main():
     check.extra['distinct_encodings'] = len(encs)
     check.finish(required_counters=() if check.args.replay else (
         'parse_returned_network', 'parse_value_error', 'accessor_reads', 'parse_url_or_log_calls',
-        'urljoin_safe_calls'))
+        'urljoin_safe_calls', 'documents_scraped', 'scraped_links_joined'))
 
 
 if __name__ == '__main__':
